@@ -11,6 +11,9 @@
 (* setop     {name, kt, a, b, out}              two sorted sequences (SetOps!SetOp2)*)
 (* unique    {kt, a, n, out}                    set_unique: new length, prefix      *)
 (* ksetop    {name, kt, ok, runs, out, m, r}    k sorted sequences (SetOperations)  *)
+(* peekpop   {kt, ord, ok, runs, peeks, last_peek, out}   loser tree: peek before every pop *)
+(* compare   {a, b, ok, out}    element-wise three-way comparison of two i32 slices            *)
+(* argmin    {a, r}             first minimum of an i32 slice as an option [[index, value]]     *)
 (* sort_big  {ok, len_in, len_out, bag_in, bag_out, inv}       large regime:        *)
 (* merge_big {ok, runs_inv, len_in, len_out, bag_in, bag_out, inv}  projections     *)
 (* panic {in, msg, ...}  crash {in, sig, ...}   no action: rejected                 *)
@@ -30,6 +33,9 @@ Step(e) ==
     \/ e.op = "setop"     /\ SetOp2OK(e.name, e.kt, e.a, e.b, e.out)
     \/ e.op = "unique"    /\ UniqueOK(e.kt, e.a, e.n, e.out)
     \/ e.op = "ksetop"    /\ KSetOpOK(e.name, e.kt, e.ok, e.runs, e.out, e.m, e.r)
+    \/ e.op = "peekpop"   /\ PeekPopOK(e.kt, e.ord, e.ok, e.runs, e.peeks, e.last_peek, e.out)
+    \/ e.op = "compare"   /\ CompareOK(e.a, e.b, e.ok, e.out)
+    \/ e.op = "argmin"    /\ ArgMinOK(e.a, e.r)
     \/ e.op = "sort_big"  /\ BigOK(e.ok, e.len_in, e.len_out, e.bag_in, e.bag_out, e.inv)
     \/ e.op = "merge_big" /\ BigMergeOK(e.ok, e.runs_inv, e.len_in, e.len_out, e.bag_in, e.bag_out, e.inv)
 
